@@ -285,7 +285,11 @@ json generate(uint64_t seed, uint64_t idx, int tier)
 		json a = step(cl, "addpath", 8);
 		a["dir"] = "/inc";
 		steps.push_back(a);
-		json ps = parse_step(cl, 8, "buf", r.chance(1, 2) ? "one { include(\"one.conf\") }\n" : "ms \"t1\" { include(\"good_ms.conf\") }\ninclude(\"good.conf\")\n");
+		if (r.chance(1, 2)) // ... and replaces the error function: every diagnostic of the next parse goes to the new one
+			steps.push_back(step(cl, "seterrfn", 8));
+		static const char *hp[] = {"one { include(\"one.conf\") }\n", "ms \"t1\" { include(\"good_ms.conf\") }\ninclude(\"good.conf\")\n", "one { x = zz }\n", "one { include(\"nope.conf\") }\n",
+					   "ms \"t1\" { k = zz }\n"};
+		json ps = parse_step(cl, 8, "buf", hp[r.below(5)]);
 		ps["histprobe"] = 1;
 		ps["pin"] = 1;
 		steps.push_back(ps);
